@@ -155,6 +155,11 @@ def upstream_values(n, version, with_ctx):
             out.append(d)
         elif with_ctx == "big":
             out.append((d, {"v": version, "i": i, "pad": "x" * 900}))
+        elif with_ctx == "repeat":
+            # string objects at several places of a value: one common to all values of the run, one of its own
+            s = "tag-%s" % (version,)
+            own = "own-%s-%s" % (version, i)
+            out.append((d, {"v": version, "i": i, "s": s, "t": [s, own, s], "u": {"k": s, "own": own, "l": [own]}}))
         else:
             out.append((d, {"v": version, "i": i}))
     return out
@@ -372,6 +377,15 @@ def cache_path(name, layout="flat"):
     return "cache_%s.pkl" % name if layout == "flat" else os.path.join("d_%s" % name, "cache.pkl")
 
 
+_PROTOCOL = [None]      # pickle protocol given to the caches of the case being judged (None: the default)
+
+
+def _cache(path, recompute):
+    if _PROTOCOL[0] is None:
+        return Cache(path, recompute=recompute)
+    return Cache(path, recompute=recompute, protocol=_PROTOCOL[0])
+
+
 class Real(object):
     """the pipeline elements of one program; rebuilt for every run unless the
     history re-uses its objects (one process running the same sequence again)"""
@@ -394,9 +408,9 @@ class Real(object):
                     # all caches are built from one template and named by the static context
                     self.setters[len(self.els)] = r[1]
                     self.els.append(SetContext("stage", r[1] + ds))
-                    c = Cache(cache_path("{{stage}}", layout), recompute=recompute.get(r[1], False))
+                    c = _cache(cache_path("{{stage}}", layout), recompute.get(r[1], False))
                 else:
-                    c = Cache(cache_path(r[1], layout), recompute=recompute.get(r[1], False))
+                    c = _cache(cache_path(r[1], layout), recompute.get(r[1], False))
                 self.caches[r[1]] = c
                 self.els.append(c)
         self.seq = None
@@ -513,6 +527,8 @@ def judge_history(case):
     fixed_recompute = case.get("recompute0", {}) if reuse else None
     with instr.Sandbox("lena-c18-"):
         templated = bool(case.get("templated"))
+        _PROTOCOL[0] = case.get("protocol")
+        classes.append("protocol:%s" % _PROTOCOL[0])
         layout = case.get("layout", "flat")
         classes.append("cache-files:" + layout)
         real = Real(stages, fixed_recompute, templated, "", layout) if reuse else None
@@ -630,7 +646,8 @@ def history_case(draw, big=False):
     nstages = len(stages)
     names = ["A", "B"] if two else ["A"]
     fallible = [-1] + [i for i, r in enumerate(stages) if r[0] != "cache"]
-    case = {"stages": stages, "n": n, "ctx": draw(st.sampled_from([False, True, True, "shared", "big", "fragile"]))}
+    case = {"stages": stages, "n": n, "ctx": draw(st.sampled_from([False, True, True, "shared", "big", "fragile", "repeat", "repeat"])),
+            "protocol": draw(st.sampled_from([None, None, 0, 4, 4, 5]))}
     if draw(st.integers(0, 3)) == 0:
         case["templated"] = True
     if draw(st.integers(0, 2)) == 0:
